@@ -5,7 +5,7 @@ from common import R, Rmat, cfl, fl, max_rel_err, ModelError
 
 from common import wiring_pre_build as pre_build  # noqa: E402,F401
 
-LEAN_MODULES = ["PyomaVerif.Props.C13", "PyomaVerif.Mutants.C13", "PyomaVerif.Props.WiringRun"]
+LEAN_MODULES = ["PyomaVerif.Props.C13", "PyomaVerif.Props.C13Parseval", "PyomaVerif.Mutants.C13", "PyomaVerif.Props.WiringRun"]
 THEOREMS = [
     # call-site wiring of the class layer, regenerated from /repo on every run (translate_wiring.py)
     "PV.WiringRun.C13_run_spectral",
@@ -34,6 +34,26 @@ THEOREMS = [
     "PV.C13.tw4_unit",
     "PV.C13.tw4_period",
     "PV.C13.ex_gain_delay",
+    # Props/C13Parseval.lean: "equals Welch's estimate" and "integrates to the mean square" as theorems about the model
+    "PV.C13.dft_orthogonality",
+    "PV.C13.dft_parseval_complex",
+    "PV.C13.dft_parseval",
+    "PV.C13.orth_of_primitive",
+    "PV.C13.parseval_hyps_roots_of_unity",
+    "PV.C13.dft_parseval_roots_of_unity",
+    "PV.C13.tw4_orth",
+    "PV.C13.one_sided_lines",
+    "PV.C13.one_sided_odd_last",
+    "PV.C13.one_sided_fold",
+    "PV.C13.two_sided_sum_real",
+    "PV.C13.welch_parseval",
+    "PV.C13.sd_per_parseval",
+    "PV.C13.sd_per_auto_real",
+    "PV.C13.sd_per_parseval_auto",
+    "PV.C13.welch_parseval_flat",
+    "PV.C13.sd_per_welch_form",
+    "PV.C13.sd_cor_freq_sum",
+    "PV.C13.sd_cor_parseval",
     "PV.C13.Mutants.opp_conj_violates_gain_delay",
     "PV.C13.Mutants.opp_conj_gives_conjugate_phase",
     "PV.C13.Mutants.swap_violates_pairing",
@@ -45,7 +65,7 @@ RULE = (
     "nxseg 4..64 all parities, plus 128..512 quick / ..4096 thorough, overlaps incl. non-integer nxseg*pov, random dt), "
     "max |diff| <= 1e-9 * max |entry|, frequencies 1e-12; malformed stream (length mismatch, pov >= 1) must raise in both. "
     "oracle: the property's battery on the real code (independent numpy Welch lines >= 2, grid, pairing, bilinearity, "
-    "g^2, Hermitian PSD, Parseval, gain-and-delay, grid-line sinusoids; class layer: result.freq/Sy of FDD and pLSCF through SingleSetup in "
+    "g^2, Hermitian PSD, Parseval (mean square 5 %; exact window-weighted segment form of sd_per_parseval 1e-10), gain-and-delay, grid-line sinusoids; class layer: result.freq/Sy of FDD and pLSCF through SingleSetup in "
     "multi-step sessions -- run twice, re-added after decimate_data, re-used on a second setup with another fs, two objects, amplitudes 1e-8..1e8 -- "
     "grid of the record handed over and Welch equivalence). distinct = distinct (kind, method, nxseg, pov, shapes)"
 )
@@ -58,7 +78,7 @@ ASSUMPTIONS = [
     "the approximate statements of the property (Parseval 5 %, gain-and-delay 5 % / 30 % on non-periodic broadband data) are validated by search only; "
     "gain-and-delay oracle: the DC line is compared only for delays <= nxseg/512 (segment-mean removal leaves untapered weights there; "
     "bias 2d/n plus sampling error reaches 4-6 % at d = nxseg/64 for any feasible record length); all other lines at 5 %",
-    "their exact counterparts (csd_gain_delay for segment-periodic pairs with a flat window, dyad decomposition, sd_sinusoid) are the theorems",
+    "their exact counterparts (csd_gain_delay for segment-periodic pairs with a flat window, dyad decomposition, sd_sinusoid, sd_per_parseval / sd_per_welch_form) are the theorems",
 ]
 
 POVS8 = [0.0, 0.125, 0.25, 0.375, 0.5, 0.625, 0.75, 0.875]
@@ -313,6 +333,23 @@ def check_psd_parseval(p, stats=None):
                 stats["parseval"] = max(stats.get("parseval", 0.0), e)
             if e > 0.05:
                 out.append(("parseval", f"'per': integral over frequency {integ:.6g} vs mean square {ms:.6g} (rel {e:.3f})", integ, ms))
+    # the EXACT form of the same clause (what "Hann-windowed Welch estimate" + Parseval give; Lean: sd_per_parseval):
+    # df * sum_k Re S_ij[k] = mean over segments of sum_t (w x~_i)(w x~_j) / sum_t w^2, x~ = segment minus its mean
+    df = f[1] - f[0]
+    nov = int(n * pov)
+    step = n - nov
+    nseg = (N - nov) // step
+    w = 0.5 - 0.5 * np.cos(2 * np.pi * np.arange(n) / n)
+    seg = np.stack([Y[:, s * step : s * step + n] for s in range(nseg)])  # nseg x na x n
+    seg = (seg - seg.mean(axis=2, keepdims=True)) * w
+    want = np.einsum("sit,sjt->ij", seg, seg) / nseg / float(np.sum(w * w))
+    got = np.sum(S.real, axis=2) * df
+    scale = float(np.sqrt(np.outer(np.diag(want), np.diag(want))).max())
+    ex = float(np.abs(got - want).max() / max(scale, 1e-300))
+    if stats is not None:
+        stats["parseval_exact"] = max(stats.get("parseval_exact", 0.0), ex)
+    if ex > 1e-10:
+        out.append(("parseval-window-weighted", f"'per': df*sum_k Re S differs from the window-weighted mean product of the detrended segments (rel {ex:.2e})", None, None))
     return out
 
 
@@ -470,6 +507,16 @@ def check_classlayer(p, stats=None):
             ss.run_all()
             for name in list(ss.algorithms.keys()):
                 verify("after run_all", name)
+        elif op == "mpe":  # an extraction between two runs (FDD objects): the next run still uses the object's own parameters
+            for name in step[1]:
+                spec, alg = algs[name]
+                if spec["cls"] != "FDD":
+                    continue
+                fs_h = handed[name][1]
+                try:
+                    ss.mpe(name, sel_freq=[0.2 * fs_h], DF=3 * fs_h / spec["nxseg"])
+                except Exception as e:  # noqa: BLE001
+                    out.append(("class-mpe-raises", f"FDD.mpe raised {type(e).__name__}: {str(e)[:80]}", None, None))
         elif op == "recheck":  # results of objects that were not touched must not have changed either
             for name in step[1]:
                 verify("re-read later in the session", name)
@@ -528,7 +575,7 @@ def _gen_classlayer(ctx, seed):
     fs2 = rng.choice([f for f in fss if f != fs1])
     q = rng.choice([2, 3, 4, 5])
     N = lambda n, k=1: k * max(a["nxseg"], b["nxseg"]) * rng.randint(6, 12) + rng.randint(0, 50)  # noqa: E731
-    scen = rng.choice(["decimate-readd", "second-setup", "run-twice", "two-objects", "decimate-not-readd", "decimate-twice"])
+    scen = rng.choice(["decimate-readd", "second-setup", "run-twice", "two-objects", "decimate-not-readd", "decimate-twice", "run-mpe-run"])
     if scen == "decimate-readd":
         steps = [["setup", fs1, N(0, q), amp], ["add", ["A", "B"]], ["run", ["A"]], ["decimate", q], ["add", ["A"]], ["run", ["A"]],
                  ["add", ["B"]], ["run", ["B"]], ["recheck", ["A"]]]
@@ -540,6 +587,9 @@ def _gen_classlayer(ctx, seed):
     elif scen == "two-objects":
         steps = [["setup", fs1, N(0), amp], ["add", ["A"]], ["run", ["A"]], ["setup", fs2, N(0), amp], ["add", ["B"]], ["run", ["B"]],
                  ["recheck", ["A", "B"]]]
+    elif scen == "run-mpe-run":  # run, extract, run again (e.g. run_all after a second algorithm was added)
+        a["cls"] = "FDD"
+        steps = [["setup", fs1, N(0), amp], ["add", ["A"]], ["run", ["A"]], ["mpe", ["A"]], ["add", ["B"]], ["run_all"], ["recheck", ["A"]]]
     elif scen == "decimate-twice":  # two decimations in a row, then analysis: lines every fs/(q q2)/nxseg
         q2 = rng.choice([2, 3])
         steps = [["setup", fs1, N(0, q * q2), amp], ["decimate", q], ["decimate", q2], ["add", ["A", "B"]], ["run", ["A", "B"]]]
